@@ -315,25 +315,45 @@ theorem addFold_keeps_mem {u : Universe} (hu : IdsDistinct u) {kept l : List Pkg
   rw [← eq_of_id_eq hu hqu (hl p hp) hid]
   exact hq
 
-/-! ## the install_if loops only append -/
+/-! ## the install_if loops only append, and only packages of the universe -/
+
+theorem installIfMap_mem {u : Universe} {key : Text} {p : Pkg} (h : p ∈ installIfMap u key) :
+    p ∈ u.all := by
+  unfold installIfMap at h
+  simp only [List.mem_flatMap, List.mem_map] at h
+  obtain ⟨q, hq, _, _, rfl⟩ := h
+  exact hq
 
 theorem installIfStep_append (c : Cfg) (deps : List Pkg) (d : Pkg) :
-    ∃ t, installIfStep c deps d = deps ++ t := by
+    ∃ t, installIfStep c deps d = deps ++ t ∧ ∀ x ∈ t, x ∈ c.u.all := by
   unfold installIfStep
   simp only
+  have hl : ∀ x ∈ (if (!(installIfMap c.u d.name).isEmpty) = true then installIfMap c.u d.name
+      else installIfMap c.u (d.name ++ ['='] ++ d.version)), x ∈ c.u.all := by
+    intro x hx
+    split at hx <;> exact installIfMap_mem hx
+  revert hl
   generalize (if (!(installIfMap c.u d.name).isEmpty) = true then installIfMap c.u d.name
     else installIfMap c.u (d.name ++ ['='] ++ d.version)) = l
+  intro hl
   induction l generalizing deps with
   | nil => exact ⟨[], by simp⟩
   | cons x xs ih =>
     simp only [List.foldl_cons]
+    have hxs : ∀ y ∈ xs, y ∈ c.u.all := fun y hy => hl y (List.mem_cons_of_mem _ hy)
     split
-    · obtain ⟨t, ht⟩ := ih (deps ++ [x])
-      exact ⟨[x] ++ t, by rw [ht]; simp⟩
-    · exact ih deps
+    · obtain ⟨t, ht, hu⟩ := ih (deps ++ [x]) hxs
+      refine ⟨[x] ++ t, by rw [ht]; simp, ?_⟩
+      intro y hy
+      rcases List.mem_append.mp hy with hy | hy
+      · simp only [List.mem_singleton] at hy
+        subst hy
+        exact hl y (List.mem_cons_self ..)
+      · exact hu y hy
+    · exact ih deps hxs
 
 theorem installIfFixedLoop_append (c : Cfg) (fuel i : Nat) (deps : List Pkg) :
-    ∃ t, installIfFixedLoop c fuel i deps = deps ++ t := by
+    ∃ t, installIfFixedLoop c fuel i deps = deps ++ t ∧ ∀ x ∈ t, x ∈ c.u.all := by
   induction fuel generalizing i deps with
   | zero => exact ⟨[], by simp [installIfFixedLoop]⟩
   | succ n ih =>
@@ -341,19 +361,23 @@ theorem installIfFixedLoop_append (c : Cfg) (fuel i : Nat) (deps : List Pkg) :
     split
     · exact ⟨[], by simp⟩
     · next d _ =>
-      obtain ⟨t1, h1⟩ := installIfStep_append c deps d
-      obtain ⟨t2, h2⟩ := ih (i + 1) (installIfStep c deps d)
-      exact ⟨t1 ++ t2, by rw [h2, h1]; simp⟩
+      obtain ⟨t1, h1, u1⟩ := installIfStep_append c deps d
+      obtain ⟨t2, h2, u2⟩ := ih (i + 1) (installIfStep c deps d)
+      refine ⟨t1 ++ t2, by rw [h2, h1]; simp, ?_⟩
+      intro y hy
+      rcases List.mem_append.mp hy with hy | hy
+      · exact u1 y hy
+      · exact u2 y hy
 
 theorem installIfMapLoop_append (c : Cfg) (deps : List Pkg) :
-    ∃ t, installIfMapLoop c deps = deps ++ t := by
+    ∃ t, installIfMapLoop c deps = deps ++ t ∧ ∀ x ∈ t, x ∈ c.u.all := by
   unfold installIfMapLoop
   simp only
   generalize c.addedOrder (deps.map (·.name)) = names
   suffices h : ∀ acc : List Pkg, ∃ t, names.foldl (fun acc n =>
       match deps.find? (·.name = n) with
       | some d => installIfStep c acc d
-      | none => acc) acc = acc ++ t from h deps
+      | none => acc) acc = acc ++ t ∧ ∀ x ∈ t, x ∈ c.u.all from h deps
   induction names with
   | nil => exact fun acc => ⟨[], by simp⟩
   | cons n ns ih =>
@@ -361,9 +385,13 @@ theorem installIfMapLoop_append (c : Cfg) (deps : List Pkg) :
     simp only [List.foldl_cons]
     split
     · next d _ =>
-      obtain ⟨t1, h1⟩ := installIfStep_append c acc d
-      obtain ⟨t2, h2⟩ := ih (installIfStep c acc d)
-      exact ⟨t1 ++ t2, by rw [h2, h1]; simp⟩
+      obtain ⟨t1, h1, u1⟩ := installIfStep_append c acc d
+      obtain ⟨t2, h2, u2⟩ := ih (installIfStep c acc d)
+      refine ⟨t1 ++ t2, by rw [h2, h1]; simp, ?_⟩
+      intro y hy
+      rcases List.mem_append.mp hy with hy | hy
+      · exact u1 y hy
+      · exact u2 y hy
     · exact ih acc
 
 theorem eq_of_append_length {α : Type} {a b t : List α} (h : b = a ++ t) (hl : b.length = a.length) :
